@@ -684,7 +684,9 @@ class SimplicialComplex(Hypergraph):
                 dd = {}
 
             if simplex:
-                new_faces = self._subfaces(simplex)
+                # as sets, so that tuple node labels are not mistaken for
+                # (members, id) entries
+                new_faces = [frozenset(face) for face in self._subfaces(simplex)]
                 self.add_simplices_from(new_faces)
 
     def add_weighted_simplices_from(
